@@ -495,3 +495,33 @@ mod tests {
         assert_eq!(4, data_clone.lock().unwrap().len());
     }
 }
+
+// Verification hooks (add-only; compiled only with `--cfg kolibrie_verif`). No behaviour change:
+// read-only snapshots of the private window state and a wrapper around the private `scope`.
+#[cfg(kolibrie_verif)]
+impl<I> CSPARQLWindow<I>
+where
+    I: Eq + PartialEq + Clone + Debug + Hash + Send,
+{
+    /// (open, close, [(item, latest timestamp)], last_timestamp_changed) of every active window.
+    pub fn verif_active_windows(&self) -> Vec<(usize, usize, Vec<(I, usize)>, usize)> {
+        self.active_windows
+            .iter()
+            .map(|(w, c)| {
+                (
+                    w.open,
+                    w.close,
+                    c.iter_with_timestamps().map(|(i, t)| (i.clone(), t)).collect(),
+                    c.get_last_timestamp_changed(),
+                )
+            })
+            .collect()
+    }
+    pub fn verif_app_time(&self) -> usize {
+        self.app_time
+    }
+    /// Calls the private `scope` (which only inserts absent windows) for `event_time`.
+    pub fn verif_scope(&mut self, event_time: usize) {
+        self.scope(&event_time);
+    }
+}
